@@ -68,6 +68,13 @@ pub fn encode(name: &str, is_table: bool) -> String {
 pub fn is_valid(name: &str, is_table: bool) -> bool {
     if name.is_empty() || (!is_table && name.starts_with(TABLE_PREFIX)) {
         false
+    } else if name.chars().any(|chr| {
+        // Characters in the ranges that the encoding itself uses would decode
+        // to different names, and these separators are reserved by CFB.
+        (0x3800..0x4840).contains(&(chr as u32))
+            || matches!(chr, '/' | '\\' | ':' | '!')
+    }) {
+        false
     } else {
         encode(name, is_table).encode_utf16().count() <= 31
     }
